@@ -691,3 +691,32 @@ Definition atom_back (a : ratom) : watom := WAt (r_sym a) (r_chg a) (Some (r_map
 (** two node dictionaries that differ at most in hcount *)
 Definition same_but_hc (a b : natt) : Prop :=
   a_el a = a_el b /\ a_ar a = a_ar b /\ a_ch a = a_ch b /\ a_am a = a_am b /\ a_tgh a = a_tgh b.
+
+(** vocabulary of the end-to-end reaction-string theorem: a molecule graph as MolToGraph writes it (unique ids, one entry
+    per bond between two different existing atoms, element symbol in [A-Za-z*]+ and charge present, scalar bond orders
+    1 / 1.5 / 2 / 3); two such graphs on the same atoms with the same elements (an atom-balanced reaction); an
+    enumeration of the union of the two edge sets (the iteration artefact of ITSGraph) *)
+Definition mol_node_ok (a : natt) : bool :=
+  match a_el a, a_ch a with Some e, Some _ => elem_ok e | _, _ => false end.
+Definition mol_edge_ok (g : gr) (e : N * N * eatt) : bool :=
+  let '(u, v, x) := e in
+  negb (N.eqb u v) && has_node g u && has_node g v &&
+  match e_ord x with Some (OS o) => (o =? 2) || (o =? 3) || (o =? 4) || (o =? 6) | _ => false end.
+Definition mol_ok (g : gr) : bool :=
+  nodupb (node_ids g) && uniq_pairs (gedges g) && forallb (fun p => mol_node_ok (snd p)) (gnodes g)
+  && forallb (mol_edge_ok g) (gedges g).
+Definition balanced (G H : gr) : bool :=
+  forallb (fun p : N * natt => match label H (fst p) with
+                               | Some b => str_eqb (dflt (a_el (snd p)) s_star) (dflt (a_el b) s_star)
+                               | None => false
+                               end) (gnodes G)
+  && forallb (fun p : N * natt => has_node G (fst p)) (gnodes H).
+Definition pair_in (u v : N) (eo : list (N * N)) : bool :=
+  existsb (fun e : N * N => (N.eqb (fst e) u && N.eqb (snd e) v) || (N.eqb (fst e) v && N.eqb (snd e) u)) eo.
+(** [eo] enumerates exactly the union of the two edge sets (boolean form of the premise of C10_smart_roundtrip) *)
+Definition eo_covers (G H : gr) (eo : list (N * N)) : bool :=
+  forallb (fun e : N * N => has_edge G (fst e) (snd e) || has_edge H (fst e) (snd e)) eo
+  && forallb (fun e : N * N * eatt => pair_in (fst (fst e)) (snd (fst e)) eo) (gedges G)
+  && forallb (fun e : N * N * eatt => pair_in (fst (fst e)) (snd (fst e)) eo) (gedges H).
+Definition run_smart2 (r p : gr) (eo : list (N * N)) (core reindex explicit_h : bool) : tok :=
+  L [run_smart r p eo core reindex explicit_h; tbool (mol_ok r); tbool (mol_ok p); tbool (balanced r p); tbool (eo_covers r p eo)].
